@@ -291,7 +291,9 @@ def plan_C12(prop, tier, seed, t0):
 
 def plan_C03(prop, tier, seed, t0):
     q = tier == "quick"
-    mcs = []
+    mcs = [dict(name="extract_q", module="MC_Extract.tla", cfg="MC_Extract_q.cfg", timeout=1500)]
+    if not q:
+        mcs += [dict(name="extract_" + c, module="MC_Extract.tla", cfg=f"MC_Extract_{c}.cfg", timeout=5000) for c in ("c3", "f3", "flow3")]
     T = dict(module="Trace_Extract.tla", cfg="Trace_Extract.cfg")
     cli = ["--quizx-bin", QUIZX_BIN, "--cli-every", 6 if q else 3]
     traces = [
@@ -303,8 +305,11 @@ def plan_C03(prop, tier, seed, t0):
         dict(name="deep2", engine="extract", args=["--random", 150 if q else 3000, "--alphabet", "ct", "--minq", 2, "--maxq", 2, "--minlen", 12, "--maxlen", 40] + cli, **T),
         dict(name="enum2", engine="extract", args=["--enum", "2,6,cth", "--stride", 24 if q else 2], **T),
     ]
-    return run_plan(prop, tier, seed, t0, mcs, traces, "translation_validation", COMMON_ASSUME,
-                    "one program = one source circuit pushed through to_graph -> {flow, clifford, full}_simp -> Extractor in modes "
+    return run_plan(prop, tier, seed, t0, mcs, traces, "model_checking", COMMON_ASSUME,
+                    "MC: the extraction state machine of spec/Extract.tla (prepare frontier / gadget pivot / extract / Gauss-Jordan row operations "
+                    "mirrored as CNOTs / final permutation) started from every quiescent result of every firing order of the simplification strategy "
+                    "on every circuit over the alphabet: ExtInv (Den(g);CircSem(c) proportional to the source) in EVERY state, basic gates only, "
+                    "never the error state, identity wires at the end; TRACE: one program = one source circuit pushed through to_graph -> {flow, clifford, full}_simp -> Extractor in modes "
                     "{single-solution-set, simple-Gauss, up-to-permutation} (+ flow/no-Gauss), both backends, and through the built `quizx opt` "
                     "binary (4 method flags, stdout and -o); every output circuit is validated by TLC: basic gates only, same qubits, "
                     "ProjEq(CircSem(out), CircSem(in)) with a non-zero factor (for some input permutation in up-to-permutation mode)",
@@ -441,14 +446,15 @@ META["C12"] = dict(level="model_checking", engine="eqcheck", design_ref="DESIGN.
          "all pairs of small circuits under every simplification order; every answer of the eight real entry points on independent, "
          "equal-by-construction and near-miss pairs is compared by TLC with the exact gate semantics.",
     note="ground truth by exact CircSem (<=4 qubits); the float test arg(scalar)=0 is mirrored by the exact test 'positive real' (DESIGN section 3 C12)")
-META["C03"] = dict(level="translation_validation", engine="extract", design_ref="DESIGN.md section 3 C03", technique=
-    "translation validation: every (source circuit, extracted circuit) pair produced by the real pipeline and CLI is checked by TLC against the TLA+ gate semantics (spec/Circuit.tla)",
-    text="Every extraction the real code performs on enumerated and random circuits (all strategy x extractor-mode combinations, both backends, "
+META["C03"] = dict(level="model_checking", engine="extract", design_ref="DESIGN.md section 3 C03 and 10.5", technique=TECH,
+    text="spec/Extract.tla models the extractor as a state machine and TLC checks the invariant Den(g);CircSem(c) ~ source in every state for all "
+         "small circuits and all simplification orders. Every extraction the real code performs on enumerated and random circuits (all strategy x extractor-mode combinations, both backends, "
          "and the CLI end to end) is validated per program by TLC with the specification's exact circuit semantics: equivalence up to a "
          "non-zero scalar, basic gate set, same qubits, permutation witness in up-to-permutation mode; failure to extract, panics and "
          "time-outs are violations.",
-    note="the extraction algorithm itself is not model-checked as a state machine in this round (no Extract.tla): the claim is per-program validation, "
-         "not exhaustive exploration of the extractor; CLI inputs exclude the pyzx-specific `pp` gate, which the QASM front end does not declare")
+    note="the model uses a plain Gauss-Jordan eliminator (the external bitgauss eliminator and the single-solution-set heuristic are not transcribed: any "
+         "row-operation sequence keeps the invariant; which sequences the code picks is covered by the recorded extractions only); no per-step hooks, so the "
+         "binding to the code is end to end per program; CLI inputs exclude the pyzx-specific `pp` gate, which the QASM front end does not declare")
 META["C09"] = dict(level="model_checking", engine="backends", design_ref="DESIGN.md section 3 C09", technique=TECH,
     text="spec/Backends.tla models the vector store (Option slots, free-name stack, swap_remove adjacency lists, cached numv/nume, pack "
          "renumbering) and the hash store (maps of maps, fresh counter) as two concrete machines next to the abstract graph; TLC exhausts "
@@ -490,7 +496,7 @@ ENGINES = [
     {"name": "eqcheck", "path": "spec/Equality.tla mc/MC_Equal.tla mc/Trace_Eq.tla harness/src/eng_circ.rs",
      "serves_properties": ["C12"], "kind_free_text": "TLC exhaustive checker algorithm + trace validation of answers"},
     {"name": "extract", "path": "spec/Circuit.tla mc/Trace_Extract.tla harness/src/eng_circ.rs",
-     "serves_properties": ["C03"], "kind_free_text": "per-program validation of extraction results and CLI output by TLC"},
+     "serves_properties": ["C03"], "kind_free_text": "TLC extraction state machine (spec/Extract.tla, mc/MC_Extract.tla) + per-program validation of extraction results and CLI output"},
     {"name": "compose", "path": "spec/Compose.tla mc/MC_Plug.tla mc/Trace_Compose.tla harness/src/eng_compose.rs",
      "serves_properties": ["C11"], "kind_free_text": "TLC exhaustive pairs + trace validation of composition/plugging calls"},
     {"name": "tensor", "path": "spec/ZXSem.tla mc/MC_Sem.tla mc/Trace_Tensor.tla harness/src/eng_tensor.rs",
